@@ -3,6 +3,7 @@ CONSTANTS
   MaxDepth = 6
   WakeKeeps = FALSE
   RegisterFlagInverted = FALSE
+  DropOldBeforeStore = FALSE
 SPECIFICATION Spec
 VIEW View
 INVARIANTS LogInit
